@@ -147,6 +147,13 @@ def validate_pystr(rep, rng, tier):
 def c10_run(rep, rng, tier, term):
     viol = []
     validate_pystr(rep, rng, tier)
+    # syntactic tie for the delegated methods (the model takes their result from str as data)
+    import os as _os
+    from . import delegation
+    changed = delegation.check(_os.environ.get('VERIF_SRC', '/repo/src'))
+    rep.notes.append('delegation shape checked for %d methods, %d changed' % (len(delegation.QUERIES) + len(delegation.CASES), len(changed)))
+    delegation_div = [{'case': {'method': m}, 'what': 'delegated method no longer has the delegating shape', 'impl': why, 'model': 'str.%s on the base text' % m}
+                      for (_, m, why) in changed]
     n = 2500 if tier == 'quick' else 80000
     for k in range(n):
         t = rand_text(rng)
@@ -188,7 +195,7 @@ def c10_run(rep, rng, tier, term):
             if s.base_str != t:
                 viol.append({'oracle': 'C10.receiver', 'case': payload, 'msg': '%s changed the receiver text' % name})
                 break
-    return viol, []
+    return viol, delegation_div
 
 
 def c10_replay(v, term):
